@@ -85,6 +85,9 @@ def mask_families():
            ("13-suite-chacha", dict(v13, suite="TLS_CHACHA20_POLY1305_SHA256")),
            ("13-suite-aes256", dict(scen.ALL["hrr13s"], suite="TLS_AES_256_GCM_SHA384")),
            ("13-clientauth", dict(v13, clientAuth=4, clientCert=True, verify=True)),
+           # the peer presents its leaf only, the verifier completes the chain from its pool: what is REPORTED is what was presented
+           ("13-leafonly-verify", dict(v13, clientAuth=4, clientCert=True, verify=True, leafOnly=True)),
+           ("12-leafonly-verify", dict(scen.ALL["clientauth12"], leafOnly=True)),
            ("13-p256", dict(scen.ALL["hrr13s"], curvesC=[23], curvesS=[23])),
            ("dual-dual", dict(v13, cver="dual", sver="dual")),
            ("dual-13", dict(scen.ALL["hrr13s"], cver="dual", sver="13")),
